@@ -31,7 +31,8 @@ MANIFEST = {
             "pattern-targeted seeds and random unicode strings are pushed through the real filter_id of c, cpp and py for every "
             "id category and several stropping configurations; each returned token is judged by an independent re-implementation "
             "of 'reserved under this configuration', by gcc/clang/CPython accepting it as an identifier, and by cross-process / "
-            "cache-state determinism. Exhaustive up to k (3 quick, 4 thorough), sampled beyond.",
+            "cache-state determinism. Exhaustive up to k (3 quick, 4 thorough), sampled beyond."
+            " The pool includes identifier-adjacent Unicode: word characters that are not identifier characters (superscripts, circled digits), compatibility letters that NFKC-normalise to ASCII keywords and builtins (fullwidth, ligatures, long s, mathematical bold) and continue-only characters.",
     "note": "id type 'any' is judged against the union of the rules of all types (documented meaning of 'any'); configurations with "
             "enable_stropping=false are out of scope; the middle-of-identifier '__' rule of C++ is not part of the configuration.",
 }
